@@ -5,13 +5,13 @@ import SymbolVerif.Proofs.Codec.StructStep
 namespace SymbolVerif.Codec
 open SymbolVerif.Bytes
 
-/-- encoding a child object at its own type or at its factory type is the same thing, and so is
-    the admissibility check -/
+/-- encoding a child object at its own type or at its factory type is the same thing; admissibility
+    at the factory type (which includes the discriminator values) implies admissibility at its own -/
 theorem child_at_factory {S : Schema} {T : String → Bytes → Bytes} (hwf : WF S = true) {a c : String}
     {da dc : StructDef} (hfa : S.find a = some (.struct da)) (hab : da.abstract = true)
     (hchild : (c, dc) ∈ S.children a) (r : Rec) {v : Val} {b : Bytes}
     (henc : encTypeStep S T r c v = .ok b) :
-    encTypeStep S T r a v = .ok b ∧ (∀ g, okStep S r g a v = okStep S r g c v) := by
+    encTypeStep S T r a v = .ok b ∧ (∀ g, okStep S r g a v = true → okStep S r g c v = true) := by
   have hany : (S.children a).any (·.1 == c) = true := by
     simp only [List.any_eq_true, beq_iff_eq]
     exact ⟨(c, dc), hchild, rfl⟩
@@ -31,7 +31,8 @@ theorem child_at_factory {S : Schema} {T : String → Bytes → Bytes} (hwf : WF
         exact henc
       · intro g
         unfold okStep
-        simp only [hfa, hab, if_true, hfc, hna, Bool.false_eq_true, if_false]
+        simp only [hfa, hab, if_true, hfc, hna, Bool.false_eq_true, if_false, Bool.and_eq_true]
+        exact fun h => h.1
     · cases henc
   | _ => simp at henc
 
